@@ -593,16 +593,20 @@ Definition chunk_eqb (a b : chunk) : bool :=
   list_eqb N.eqb (ch_val a) (ch_val b) && list_eqb N.eqb (ch_ttl a) (ch_ttl b) && list_eqb N.eqb (ch_type a) (ch_type b) &&
   (ch_spl_size a =? ch_spl_size b) && (ch_nseries a =? ch_nseries b)%N && (ch_ts_size a =? ch_ts_size b).
 
-(* the harness runs with a cache that never reports a hit (a clustered deployment): every (day, fp) adds rows *)
+(* a cache step that never reports a hit and remembers nothing: every (day, fp, type) adds a row each time (used for the
+   steps of a history with a shared cache, of which only the sample rows are compared) *)
 Definition miss_cache (cs : unit) (d : Z) (f : N) (t : N) : unit * bool := (tt, true).
 
-(* ... or with a cache that remembers every (day, fingerprint, type) it was asked about (a standalone deployment, within one request) *)
+(* the (day, fingerprint, type) announced so far in the request: parserDoer.announced; the deployment's cache is empty at
+   the start of a body in the harness (never-hit cache, or a set filled by ConfirmSeries only after the request) *)
 Definition set_cache (cs : list (Z * N * N)) (d : Z) (f : N) (t : N) : list (Z * N * N) * bool :=
   if existsb (fun e => (fst (fst e) =? d) && (snd (fst e) =? f)%N && (snd e =? t)%N) cs then (cs, false) else ((d, f, t) :: cs, true).
 
 Definition model_result (c : case) : result :=
   match c_cache c with
-  | CMiss => decode (tab_fp (c_tab c)) (tab_enclen (c_tab c)) unit miss_cache tt THRESHOLD FLUSH_LIMIT (c_ctx_ttl c) (c_body c)
+  (* since fix 1902c0b the parser only READS the deployment's cache (maybeAddFp = not Has) and keeps, per request, the set of
+     (day, fingerprint, type) it has announced: with a cache that never reports a hit every series row is still sent once per request *)
+  | CMiss => decode (tab_fp (c_tab c)) (tab_enclen (c_tab c)) (list (Z * N * N)) set_cache [] THRESHOLD FLUSH_LIMIT (c_ctx_ttl c) (c_body c)
   | CSet => decode (tab_fp (c_tab c)) (tab_enclen (c_tab c)) (list (Z * N * N)) set_cache [] THRESHOLD FLUSH_LIMIT (c_ctx_ttl c) (c_body c)
   (* a step of a history with one cache shared by all steps: its state is not part of the case, only the rows are compared *)
   | CShared => decode (tab_fp (c_tab c)) (tab_enclen (c_tab c)) unit miss_cache tt THRESHOLD FLUSH_LIMIT (c_ctx_ttl c) (c_body c)
